@@ -178,6 +178,23 @@ def body(prop, args, seed, t0):
             print(f"INTERNAL-ERROR property={prop} (the Python->Lean translation misrenders the code; no verdict)")
             return 2
 
+    # --- T3: translated definitions over OPAQUE objects (rules / operations / circuits; methods, constructors and operators are
+    # parameters) are instantiated with stand-ins on both sides and compared with the Python functions they came from
+    # (harness/translated_check_opaque.py); a disagreement is a fault of the translator, never a verdict about /repo
+    if prop in _tables._specs() and driver.available():
+        from harness import translated_check_opaque as _tco
+        if any(p == prop for p, _s in _tco._specs_t3()) and (build_ok or common.lake_build(["oqdriver"])[0]):
+            n3, bad3, untr3, dropped3 = _tco.run(seed, only=prop)
+            tie["translated_opaque_vs_python_function"] = n3
+            tie["translated_opaque_not_compared"] = dropped3
+            tie["untranslatable_now"] = list(tie.get("untranslatable_now", [])) + untr3
+            if bad3:
+                for b in bad3[:10]:
+                    print("  translator disagreement (opaque objects):", b)
+                print(f"INTERNAL-ERROR property={prop} (the Python->Lean translation misrenders the code; no verdict)")
+                return 2
+    # --- T3 end
+
     # ---- 3. correspondence + oracle
     if args.replay:
         rp = json.load(open(args.replay))
